@@ -478,6 +478,39 @@ func ruleOU23(c *Ctx) {
 				"the row formatter uses this user-supplied text raw ("+raw+"): a title or claimant name with a line break takes two rows - the second without glyph or id - and control characters, counted as zero cells, move the id out of its column")
 		}
 	}
+	// the prune preview formats its rows itself: every read of an item's Title there goes through the sanitiser
+	if pl := c.ErgoFn("printPruneItemList"); pl != nil && pl.Blocks != nil {
+		raw, k := "", 0
+		eachInstr(pl, func(r instrRef) {
+			v, ok := r.In.(ssa.Value)
+			if !ok {
+				return
+			}
+			if _, name, isField := fieldLoad(v); !isField || name != "Title" || v.Referrers() == nil {
+				return
+			}
+			if _, isAddr := r.In.(*ssa.FieldAddr); isAddr {
+				return
+			}
+			k++
+			for _, u := range *v.Referrers() {
+				switch x := u.(type) {
+				case *ssa.DebugRef:
+				case ssa.CallInstruction:
+					if !isSan(calleeOf(x.Common())) {
+						raw = calleeFullName(x.Common()) + " at " + c.Pos(x.Pos())
+					}
+				default:
+					raw = fmt.Sprintf("%T at %s", u, c.Pos(u.Pos()))
+				}
+			}
+		})
+		if k > 0 {
+			n++
+			c.check(raw == "" && len(sanitisers) > 0, c.Name(pl), "item titles one-line", c.FnPos(pl), "titles in the prune preview are used only through the one-line sanitiser",
+				"the prune preview uses an item's title raw ("+raw+"): a finished task whose title contains a line break shows up as several rows - one of which can carry another item's id - and escape sequences reach the terminal")
+		}
+	}
 	if n == 0 {
 		c.unk("<module>", "row-formatters", "-", "no row formatter parameter filled with user text was found (formatTreeLine / formatCollapsedEpicLine not recognised)")
 	}
@@ -814,4 +847,133 @@ func ruleOU25(c *Ctx) {
 	if n == 0 {
 		c.unk(c.Name(rl), "all-view", c.FnPos(rl), "no branch on the ShowAll option leading to the tree renderer was found")
 	}
+}
+
+// ------------------------------------------------------------------ clauses added with the second audit (F25-F28)
+
+// groupCommandsFail (a clause of OU2): a cobra command that has sub-commands but no Run/RunE is "not runnable"; cobra
+// answers a stray word after it (`ergo new taks`) with the help text on stdout and exit 0 - a failing invocation that
+// says nothing failed. Every command literal that is the receiver of an AddCommand call, other than the root (which
+// cobra itself checks), stores a RunE.
+func (c *Ctx) groupCommandsFail() {
+	type lit struct {
+		al     *ssa.Alloc
+		hasRun bool
+		pos    string
+	}
+	lits := map[*ssa.Global]*lit{}
+	parents := map[*ssa.Global]bool{}
+	var root *ssa.Global
+	for _, f := range c.Fns {
+		if !c.InModule(f) || f.Blocks == nil || f.Pkg == c.Ergo {
+			continue
+		}
+		eachInstr(f, func(r instrRef) {
+			switch x := r.In.(type) {
+			case *ssa.Store:
+				g, ok := x.Addr.(*ssa.Global)
+				if !ok || namedTypeName(g.Type().(*types.Pointer).Elem()) != "cobra.Command" {
+					return
+				}
+				al, ok := x.Val.(*ssa.Alloc)
+				if !ok || al.Referrers() == nil {
+					return
+				}
+				l := &lit{al: al, pos: c.Pos(al.Pos())}
+				for _, u := range *al.Referrers() {
+					if fa, ok := u.(*ssa.FieldAddr); ok {
+						if n := fieldName(al.Type(), fa.Field); n == "RunE" || n == "Run" {
+							l.hasRun = true
+						}
+					}
+				}
+				lits[g] = l
+			case ssa.CallInstruction:
+				n := calleeFullName(x.Common())
+				if n == "(*github.com/spf13/cobra.Command).AddCommand" && len(x.Common().Args) > 0 {
+					if u, ok := x.Common().Args[0].(*ssa.UnOp); ok {
+						if g, ok := u.X.(*ssa.Global); ok {
+							parents[g] = true
+						}
+					}
+				}
+				if n == "(*github.com/spf13/cobra.Command).Execute" || n == "(*github.com/spf13/cobra.Command).ExecuteC" {
+					if u, ok := x.Common().Args[0].(*ssa.UnOp); ok {
+						if g, ok := u.X.(*ssa.Global); ok {
+							root = g
+						}
+					}
+				}
+			}
+		})
+	}
+	var names []string
+	byName := map[string]*ssa.Global{}
+	for g := range parents {
+		names = append(names, g.Name())
+		byName[g.Name()] = g
+	}
+	sort.Strings(names)
+	for _, n := range names {
+		g := byName[n]
+		if g == root {
+			continue
+		}
+		l := lits[g]
+		if l == nil {
+			continue
+		}
+		c.check(l.hasRun, "main."+n, "group-command-has-RunE", l.pos, "the command group handles a stray word itself",
+			"this command has sub-commands but no RunE: cobra answers `ergo "+strings.TrimSuffix(n, "Cmd")+" <misspelt sub-command>` with the help text on stdout and exit 0 - nothing was done and nothing says so")
+	}
+}
+
+// initNeverNests (a clause of ST4): init builds its target as <dir>/.ergo. Started inside a store's own .ergo directory
+// that would create .ergo/.ergo - an empty second store that every command started there then uses (the upward search
+// begins at the start directory itself). So the entry that creates the store directory tests whether the directory it
+// was given is itself named .ergo (filepath.Base(...) compared with the constant).
+func (c *Ctx) initNeverNests() {
+	ri := c.ErgoFn("RunInit")
+	if ri == nil || ri.Blocks == nil {
+		return
+	}
+	ok := false
+	for _, g := range append([]*ssa.Function{ri}, c.unitOf(ri)...) {
+		for _, bf := range branchFacts(g) {
+			if bf.A.Kind != "const" || constStr(bf.A.C) != ".ergo" {
+				continue
+			}
+			if cl, _ := callOf(bf.A.X); cl != nil && calleeFullName(&cl.Call) == "path/filepath.Base" {
+				ok = true
+			}
+		}
+	}
+	curEnv = nil
+	c.check(ok, c.Name(ri), "init-does-not-nest", c.FnPos(ri), "init recognises a start directory that is itself a .ergo directory",
+		"init always creates <dir>/.ergo: run inside a store's own .ergo directory (or as `init .ergo`) it creates .ergo/.ergo, an empty store that shadows the real one for every command started there or given --dir .ergo")
+}
+
+// resultPathIsUTF8 (a clause of VD9): the path of a result is recorded as JSON text; bytes that are not valid UTF-8 are
+// replaced by U+FFFD when the event is marshalled, so the recorded path and its file_url name another file than the one
+// hashed. Every non-failing return of the path validator is reached only across the true edge of utf8.ValidString.
+func (c *Ctx) resultPathIsUTF8() {
+	vrp := c.ErgoFn("validateResultPath")
+	if vrp == nil || vrp.Blocks == nil {
+		return
+	}
+	pass := edgesWhere(vrp, func(a Atom, holds bool) bool {
+		if a.Kind != "bool" || !holds {
+			return false
+		}
+		cl, _ := callOf(a.X)
+		return cl != nil && (calleeFullName(&cl.Call) == "unicode/utf8.ValidString" || calleeFullName(&cl.Call) == "unicode/utf8.Valid")
+	})
+	ok := len(pass) > 0
+	for _, r := range c.nonFailingReturns(vrp) {
+		if !mustPassEdges(vrp, r.Block(), pass) {
+			ok = false
+		}
+	}
+	c.check(ok, c.Name(vrp), "accept|valid-utf8", c.FnPos(vrp), "a result path is accepted only if it is valid UTF-8",
+		"a result path that is not valid UTF-8 is accepted: JSON cannot hold it, the marshalled event carries U+FFFD instead, and the recorded path and file_url name a different (or no) file than the one whose sha256 was recorded")
 }
